@@ -7,6 +7,7 @@ package vh
 
 import (
 	"fmt"
+	"strings"
 	"testing"
 
 	"pgregory.net/rapid"
@@ -24,7 +25,7 @@ type C12Case struct {
 	Shadow bool `json:"shadow,omitempty"`
 }
 
-var c12Forms = []string{"local", "self", "import", "from", "alias", "fromonly"}
+var c12Forms = []string{"local", "self", "import", "from", "alias", "fromonly", "rebind"}
 
 func retarget(body []*S, form string) []*S {
 	out := cloneBodyNoMerge(body)
@@ -110,6 +111,21 @@ func c12Set(c C12Case, form string) TSet {
 			main.Body = append(main.Body, s)
 		}
 		form = "from"
+	case "rebind":
+		// the names were bound to the macros of another library first: the later from-import decides
+		decoy := &Tmpl{Name: "lib0"}
+		first := &S{K: "from", E: Str("lib0")}
+		second := &S{K: "from", E: Str("lib")}
+		for _, m := range c.Macros {
+			decoy.Body = append(decoy.Body, &S{K: "macro", Name: m.Name, Params: []Param{{Name: "zz"}}, Body: []*S{Text("DECOY-" + m.Name)}})
+			first.Imports = append(first.Imports, Import{Name: m.Name})
+			second.Imports = append(second.Imports, Import{Name: m.Name})
+		}
+		if len(c.Macros) > 0 {
+			main.Body = append(main.Body, first, Print(&E{K: "mcall", S: c.Macros[0].Name, M: "from", A: []*E{Int(0)}}), second)
+		}
+		main.Body = append(main.Body, retarget(body, "from")...)
+		return TSet{lib, decoy, main}
 	case "from", "alias":
 		s := &S{K: "from", E: Str("lib")}
 		for _, m := range c.Macros {
@@ -160,6 +176,14 @@ func checkC12(c C12Case) error {
 		}
 		if r.Err != "" {
 			return fmt.Errorf("form %s: engine error %s, model output %s; templates:%s", form, firstLine(r.Err), q(want.out), showSources(srcs))
+		}
+		if form == "rebind" && len(c.Macros) > 0 {
+			// the call placed between the two from-imports reaches the first library
+			pre := "DECOY-" + c.Macros[0].Name
+			if !strings.HasPrefix(r.Out, pre) {
+				return fmt.Errorf("form %s: engine %s does not start with the first library's %s; templates:%s", form, q(r.Out), q(pre), showSources(srcs))
+			}
+			r.Out = r.Out[len(pre):]
 		}
 		if r.Out != want.out {
 			return fmt.Errorf("form %s: engine %s, model %s; templates:%s", form, q(r.Out), q(want.out), showSources(srcs))
